@@ -15,3 +15,4 @@ INVARIANT RcLaw
 INVARIANT OrderLaw
 INVARIANT WindowLaw
 INVARIANT FastaLaw
+INVARIANT TranslateLaw
